@@ -2447,6 +2447,10 @@ class MultiUserChannelMatrixExtInt(  # pylint: disable=R0904
         # receiver.
         self._pathloss_matrix = pathloss_matrix
 
+        # The cached channel matrices with path loss are no longer valid
+        self._big_H_with_pathloss = None
+        self._H_with_pathloss = None
+
         if pathloss_matrix is None:
             self._pathloss_matrix = None
             self._pathloss_big_matrix = None
